@@ -102,6 +102,7 @@ impl AbortHandle {
     /// ## Panics
     /// Panics if called outside of shuttle context, i.e. if there is no execution context.
     pub fn is_finished(&self) -> bool {
+        thread::switch();
         ExecutionState::with(|state| {
             let task = state.get(self.task_id);
             task.finished()
@@ -168,6 +169,7 @@ impl<T> JoinHandle<T> {
     /// ## Panics
     /// Panics if called outside of shuttle context, i.e. if there is no execution context.
     pub fn is_finished(&self) -> bool {
+        thread::switch();
         ExecutionState::with(|state| {
             let task = state.get(self.task_id);
             task.finished()
